@@ -23,12 +23,14 @@ P = ['C20', 'C10']
 N, E, S, W = Player.N, Player.E, Player.S, Player.W
 M = Server.Message
 
+# (the operator's interrupt reaches the main thread only)
+SeatQueue = Ext('queue', dict(out=TraceList(), gets=TraceList(), interruptible=Const(False)))
 SeatTable = Dict({p: Opt(Text(excl=NAME_EXCL)) for p in Player})
 PTShape = Obj(PlayerThread, dict(
     connection_socket=SocketShape, connection=Alias('connection_socket'),
     event_sync=EventShape, event_thread=EventShape, team_names=SeatTable,
-    _sent_message_queues=Dict({p: QueueShape for p in Player}),
-    _received_message_queues=Dict({p: QueueShape for p in Player}),
+    _sent_message_queues=Dict({p: SeatQueue for p in Player}),
+    _received_message_queues=Dict({p: SeatQueue for p in Player}),
     players_event=Dict({p: EventShape for p in Player}),
     player=Enum(Player), name=Text()))
 
@@ -146,3 +148,133 @@ class _connect:
         return implies(result, conj(
             forall(Player, lambda p: T[p] is not None), valid(T),
             sent(self)[-1] == line(PR.enc_teams(opt_or(T[N], ''), opt_or(T[E], '')))))
+
+
+# ---- C10, seat layer: what a seat thread sends to its own client -------------------------------
+
+from pyvc.dsl import TraceReset as _TR
+
+SEAT_RESET = {'self.connection_socket': Ext('socket', dict(pos=Int(0), sent=_TR(), closed=Bool())),
+              'self._sent_message_queues': Dict({p: QueueReset for p in Player}),
+              'self._received_message_queues': Dict({p: QueueReset for p in Player})}
+
+
+def from_main(s):
+    """Messages this seat thread has taken from the main thread (since the last havoc point)."""
+    return s._received_message_queues[s.player].gets
+
+
+def to_main(s):
+    return s._sent_message_queues[s.player].out
+
+
+def my_name(s):
+    return G.FORMAL[s.player]
+
+
+@contract('bridge_env.network_bridge.server.PlayerThread._deal', props=['C10'])
+class _seat_deal:
+    returns = Bool()
+    raises = {Exception: 'onlyif'}
+    exc_havoc = True
+    modifies = ['self.connection_socket', 'self._received_message_queues', 'self.team_names']
+
+    # C10: on success exactly the two messages taken from the main thread -- board header, then
+    # this seat's own cards -- are sent on, in that order, and nothing else
+    def ensures_header_then_cards_forwarded(self, old, result):
+        g = from_main(self)
+        return implies(result, conj(len(g) == len(from_main(old.self)) + 2,
+                                    sent(self) == sent(old.self) + [line(g[-2]), line(g[-1])]))
+
+
+def _seat_bid_inv(self):
+    return pt_inv(self)
+
+
+def _seat_bid_step(self, iter, message):
+    """C10: when the announced seat is this one, the client's call goes to the main thread and
+    nothing is sent to the client; otherwise exactly the relayed call (the next item from the main
+    thread) is sent to the client -- or an error line if the client was not ready."""
+    mine = message == my_name(self)
+    g = from_main(self)
+    s = sent(self)
+    relayed = (len(g) != 2) or (len(to_main(self)) == 0 and len(s) >= 1 and s[-1] == line(g[1]))
+    return conj(implies(mine, conj(len(s) == 0, len(to_main(self)) == 1, len(g) == 1)),
+                implies(not mine, relayed))
+
+
+@contract('bridge_env.network_bridge.server.PlayerThread._bidding_phase', props=['C10'])
+class _seat_bidding:
+    returns = Bool()
+    raises = {Exception: 'onlyif', ValueError: 'onlyif'}
+    exc_havoc = True
+    modifies = ['self.connection_socket', 'self._received_message_queues',
+                'self._sent_message_queues']
+    loops = {0: LoopContract(invariant=_seat_bid_inv, havoc_heap=SEAT_RESET,
+                             body_ensures=dict(relay_step=_seat_bid_step))}
+
+
+def _seat_play_outer_inv(self, declarer, dummy, idx):
+    return conj(pt_inv(self), dummy is G.partner(declarer))
+
+
+def _seat_play_inner_inv(self, declarer, dummy, idx):
+    return conj(pt_inv(self), dummy is G.partner(declarer))
+
+
+def _seat_card_step(self, iter, trick_num, i, declarer, dummy):
+    """C10: a lead prompt goes out only at the first card of a trick and only to the seat that
+    must lead ('<Seat> to lead'), or to declarer when dummy leads ('Dummy to lead'); a seat whose
+    card is awaited gets nothing else; every other seat gets exactly the relayed card; and after
+    the opening lead every seat except dummy is sent one more item: dummy's cards."""
+    active = iter.active_player
+    me = self.player
+    i_play = conj(me is active, me is not dummy)
+    i_play_dummy = conj(me is declarer, active is dummy)
+    opening = conj(trick_num == 1, i == 0)
+    g = from_main(self)
+    s = sent(self)
+    expect_prompt = ite(i_play, [line(my_name(self) + ' to lead')],
+                        [line('Dummy to lead')]) if i == 0 else []
+    prompt_first = len(s) >= len(expect_prompt) and s[:len(expect_prompt)] == expect_prompt
+    relay_last = (len(g) != 1) or (len(s) >= 1 and s[-1] == line(g[0]))
+    return conj(
+        implies(disj(i_play, i_play_dummy), conj(
+            len(to_main(self)) == 1, prompt_first,
+            implies(not opening, conj(len(s) == len(expect_prompt), len(g) == 0)))),
+        implies(conj(not i_play, not i_play_dummy), conj(
+            len(to_main(self)) == 0, implies(not opening, relay_last))))
+
+
+@contract('bridge_env.network_bridge.server.PlayerThread._playing_phase', props=['C10'])
+class _seat_playing:
+    returns = Bool()
+    raises = {Exception: 'onlyif', ValueError: 'onlyif'}
+    exc_havoc = True
+    modifies = ['self.connection_socket', 'self._received_message_queues',
+                'self._sent_message_queues']
+    loops = {0: LoopContract(invariant=_seat_play_outer_inv, havoc=dict(active_player=Enum(Player)),
+                             havoc_heap=SEAT_RESET),
+             1: LoopContract(invariant=_seat_play_inner_inv, havoc=dict(active_player=Enum(Player)),
+                             havoc_heap=SEAT_RESET,
+                             body_ensures=dict(card_step=_seat_card_step))}
+
+
+def _seat_run_inv(self):
+    return pt_inv(self)
+
+
+def _board_is_played_iff_not_passed_out(message, passed_out):
+    """C10/C08: the play of a board is relayed exactly when the auction did not end passed out."""
+    return iff(passed_out, message == M.PASSED_OUT)
+
+
+@contract('bridge_env.network_bridge.server.PlayerThread.run', props=['C10'])
+class _seat_run:
+    raises = {Exception: 'onlyif', ValueError: 'onlyif'}
+    exc_havoc = True
+    modifies = ['self']
+    loops = {0: LoopContract(invariant=_seat_run_inv, havoc=dict(passed_out=Bool()),
+                             havoc_heap=SEAT_RESET,
+                             body_ensures=dict(
+                                 play_iff_not_passed_out=_board_is_played_iff_not_passed_out))}
